@@ -518,6 +518,6 @@ func init() {
 		Levels:  c07Levels,
 		Run:     c07Run,
 		NoDedup: true,
-		Budget:  budget(4*time.Minute, 20*time.Minute),
+		Budget:  budget(5*time.Minute, 45*time.Minute),
 	})
 }
